@@ -598,8 +598,12 @@ func (ctx *Ctx) rloop(path []byte, node *node, tpl *Tpl, w io.Writer) {
 func (ctx *Ctx) replaceQB(path []byte) []byte {
 	qbLi := bytes.Index(path, qbL)
 	qbRi := bytes.Index(path, qbR)
-	if qbLi != -1 && qbRi != -1 && qbLi < qbRi && qbRi < len(path) {
-		ctx.BufAcc.StakeOut()
+	if qbLi == -1 || qbRi == -1 || qbLi >= qbRi {
+		return path
+	}
+	// Every pair of brackets is replaced, from left to right: m[i][j] is m.<i>.<j>.
+	ctx.BufAcc.StakeOut()
+	for qbLi != -1 && qbRi != -1 && qbLi < qbRi {
 		ctx.BufAcc.Write(path[0:qbLi]).Write(dot)
 		ctx.chQB = false
 		ctx.bufX = ctx.get(path[qbLi+1 : qbRi])
@@ -611,10 +615,13 @@ func (ctx *Ctx) replaceQB(path []byte) []byte {
 			}
 		}
 		ctx.chQB = true
-		ctx.BufAcc.Write(path[qbRi+1:])
-		path = ctx.BufAcc.StakedBytes()
+		// The rest of the path as it was written: the text that has been put in is not looked at again.
+		path = path[qbRi+1:]
+		qbLi = bytes.Index(path, qbL)
+		qbRi = bytes.Index(path, qbR)
 	}
-	return path
+	ctx.BufAcc.Write(path)
+	return ctx.BufAcc.StakedBytes()
 }
 
 // Get new or existing byte writer.
